@@ -276,11 +276,14 @@ CLAIMED = {
         "computation, stream byte by a complete 2^16 sweep, update by bit-level algebra); decrypt(encrypt(x)) = x with "
         "identical key evolution for every key state and content (independent of the key schedule); the decrypting "
         "reader streams the decryption whatever the chunking; no password on an encrypted entry is the "
-        "password-required error; a wrong password can only complete a read whose bytes hash to the declared CRC.  "
+        "password-required error; a wrong password can only complete a read whose bytes hash to the declared CRC; WRITER "
+        "side: closing an encrypted stored entry puts exactly the PKWARE encryption (keys derived from the password) of "
+        "11 header bytes ++ [high byte of CRC-32] ++ content into the archive, patches CRC / 12+n / n into the header, and "
+        "decrypting it returns the check byte the reader tests and the content.  "
         "Correspondence: entries written by the crate judged by an independent Python PKWARE implementation and "
         "unzip -t and re-read; foreign entries from the reference builder and Info-ZIP incl. the DOS-time check "
         "variant; all 256 check-byte values with a wrong password.",
-   note="Trusted: Coq kernel, translator, extraction+driver, harness, genzip.py, Info-ZIP. The writer-side theorem 'stored bytes = PKWARE ciphertext of header||data' awaits the writer model; it is judged per case by the independent decryptor.",
+   note="Trusted: Coq kernel, translator, extraction+driver, harness, genzip.py, Info-ZIP. The writer-side theorem is proved for stored encrypted entries on a well-behaved sink (C15_written_ciphertext); compressed encrypted entries and the tie to the crate are judged per case by the independent decryptor.",
    technique="Coq proof over source-translated cipher (sweeps + bit algebra + induction) + differential correspondence with independent producers",
    design="8 (C15)"),
  "C16": dict(
